@@ -604,7 +604,7 @@ Proof.
   - (* NSwitch *) phi_bind; [apply phi_eval | apply phi_switch_cases].
   - (* NCall *)
     destruct (find_template _ name) as [callee|]; [|phi_leaf].
-    phi_bind; [apply phi_call_data|]. phi_bind; [apply phi_call_params | apply phi_call_enter].
+    phi_bind; [apply phi_call_data|]. phi_bind; [apply phi_call_params |]. phi_bind; [phi_leaf | apply phi_call_enter].
   - (* NLetValue *) phi_bind; [apply phi_eval|]. phi_bind; phi_leaf.
   - (* NLetContent *) phi_bind; [apply phi_render_block|]. phi_bind; phi_leaf.
   - (* NMsg *) phi_bind; [apply phi_msg_body | phi_leaf].
